@@ -282,9 +282,11 @@ def pVocab : TP String := do
     pure (l, r))
   let D : VocabData := ⟨values, types, [], merges⟩
   let V := D.vocab
-  let sp := match D.specialStrings with
+  -- variant flag regenerated from the tree: does SpecialVocabulary() skip an empty CONTROL token?
+  let skip := OllamaVerif.Generated.C20.specialVocabSkipsEmpty
+  let sp := match D.specialStrings skip with
     | none => "panic"
-    | some _ => orDash ";" ((D.specials (fun x => x)).map fun (q : Special) => s!"{showRunes q.runes}:{q.id}")
+    | some _ => orDash ";" ((D.specials skip (fun x => x)).map fun (q : Special) => s!"{showRunes q.runes}:{q.id}")
   let showOpt : Option Nat → String := fun o => match o with | some i => toString i | none => "-1"
   let enc := orDash "," (qs.map fun q => showOpt (V.tokId q))
   let mrg := orDash "," (mqs.map fun (l, r) => showOpt (V.rank l r))
